@@ -2,7 +2,7 @@
 // SHIM (assumed contract, trusted): std::collections::BTreeSet<K>; view: Set<K>.
 // Plus the iterator-adapter chain `BTreeMap::iter().filter_map(f).collect::<BTreeSet<_>>()`,
 // generic in the closure (its `requires`/`ensures`), as BRange::map in units/writer_proxy.
-// Every fn is external_body: the contract is the *assumed* specification of the standard library.
+// Nothing here is proved: each contract is the *assumed* specification of the standard library.
 // ---------------------------------------------------------------------------------------------
 pub open spec fn set_is_empty<K>(s: Set<K>) -> bool { forall|k: K| !s.contains(k) }
 
